@@ -44,12 +44,12 @@ class Interp:
         r.update(kw)
         return r
 
-    def apply(self, num, group=None, args=(), kwargs=None, raising=(), fname="fn", swallow=0):
+    def apply(self, num, group=None, args=(), kwargs=None, raising=(), fname="fn", swallow=0, proxy=False):
         r = self._newreq("apply", num=num, args=args, kwargs=kwargs)
         self.w.op("apply", num, group)
         fn = self.w.worker(r["idx"], fname, swallow=swallow)
-        if raising:
-            fn = self.w.callsite(r["idx"], fn, raising)
+        if raising or proxy:
+            fn = self.w.callsite(r["idx"], fn, raising, proxy)
         r["raising"] = raising
         try:
             r["group"] = self.pool.apply(fn, args=args, kwargs=kwargs, num=num, group_name=group,
